@@ -17,6 +17,72 @@ use hipstr::vecs::InlineVec;
 use hipverif_harness::util::{parse_cli, Rng};
 
 // ---------------------------------------------------------------------------------------------
+// red-zone allocator: a write shortly behind an allocation (e.g. one element past a ThinVec buffer)
+// lands in the red zone instead of corrupting the heap; it is detected when the block is
+// reallocated or freed and reported as a monitor violation of the running history.
+
+const RED: usize = 512;
+const RED_BYTE: u8 = 0xA5;
+
+thread_local! {
+    /// number of damaged red zones seen by this thread since the last reset
+    static RED_HITS: std::cell::Cell<u32> = const { std::cell::Cell::new(0) };
+}
+
+struct RedZone;
+
+unsafe fn red_check(ptr: *mut u8, size: usize) {
+    let mut bad = false;
+    for i in 0..RED {
+        if unsafe { *ptr.add(size + i) } != RED_BYTE {
+            bad = true;
+            break;
+        }
+    }
+    if bad {
+        let _ = RED_HITS.try_with(|c| c.set(c.get() + 1));
+    }
+}
+
+unsafe impl std::alloc::GlobalAlloc for RedZone {
+    unsafe fn alloc(&self, l: std::alloc::Layout) -> *mut u8 {
+        let Ok(big) = std::alloc::Layout::from_size_align(l.size() + RED, l.align()) else {
+            return std::ptr::null_mut();
+        };
+        let p = unsafe { std::alloc::System.alloc(big) };
+        if !p.is_null() {
+            unsafe { std::ptr::write_bytes(p.add(l.size()), RED_BYTE, RED) };
+        }
+        p
+    }
+    unsafe fn dealloc(&self, p: *mut u8, l: std::alloc::Layout) {
+        unsafe {
+            red_check(p, l.size());
+            let big = std::alloc::Layout::from_size_align_unchecked(l.size() + RED, l.align());
+            std::alloc::System.dealloc(p, big)
+        }
+    }
+    unsafe fn realloc(&self, p: *mut u8, l: std::alloc::Layout, new_size: usize) -> *mut u8 {
+        unsafe {
+            red_check(p, l.size());
+            let big = std::alloc::Layout::from_size_align_unchecked(l.size() + RED, l.align());
+            let q = std::alloc::System.realloc(p, big, new_size + RED);
+            if !q.is_null() {
+                std::ptr::write_bytes(q.add(new_size), RED_BYTE, RED);
+            }
+            q
+        }
+    }
+}
+
+#[global_allocator]
+static GLOBAL: RedZone = RedZone;
+
+fn take_red_hits() -> u32 {
+    RED_HITS.with(|c| c.replace(0))
+}
+
+// ---------------------------------------------------------------------------------------------
 // monitor
 
 #[derive(Clone, Debug, PartialEq)]
@@ -817,6 +883,7 @@ fn run_case<C: Cont>(drv: &mut Driver, hist: &Hist) -> Result<CaseOut, String> {
 
     // implementation side
     reset_monitor();
+    take_red_hits();
     let mut canon = Canon::default();
     let mut slot: Option<C> = Some(C::fresh());
     let mut out = CaseOut { calls: vec![], panicked: false, bad: None };
@@ -854,8 +921,11 @@ fn run_case<C: Cont>(drv: &mut Driver, hist: &Hist) -> Result<CaseOut, String> {
         if slot.is_none() {
             cap = dropped_cap; // the model keeps the dead container's slot array
         }
-        let (evs, calls, viol) =
+        let (evs, calls, mut viol) =
             mon(|m| (std::mem::take(&mut m.events), m.calls, std::mem::take(&mut m.violations)));
+        if take_red_hits() > 0 {
+            viol.push("write beyond the end of a heap allocation (red zone damaged)".into());
+        }
         out.calls.push(calls);
         let line = impl_line(&mut canon, &ret, len, cap, &ids, calls, &evs);
         if !viol.is_empty() {
@@ -882,7 +952,10 @@ fn run_case<C: Cont>(drv: &mut Driver, hist: &Hist) -> Result<CaseOut, String> {
         }
     }
     drop(slot);
-    let viol = mon(|m| std::mem::take(&mut m.violations));
+    let mut viol = mon(|m| std::mem::take(&mut m.violations));
+    if take_red_hits() > 0 {
+        viol.push("write beyond the end of a heap allocation (red zone damaged)".into());
+    }
     if out.bad.is_none() && !viol.is_empty() {
         out.bad = Some(("monitor", hist.len(), "no monitor violation".into(), viol.join("; ")));
     }
@@ -977,10 +1050,19 @@ fn alphabet(cfg: Cfg, fill: usize) -> Vec<Op> {
         Op::Drain(0, 2, "nd".into()),
         Op::Drain(1, 2, "d".into()),
         Op::Drain(0, 1, "bl".into()),
+        // items taken from the back, then the drain is dropped
+        Op::Drain(0, 2, "bd".into()),
         Op::Roundtrip,
     ];
     if cfg.is_thin() {
         a.push(Op::ShrinkFit);
+        // under-reporting iterator (size hint < number of items) on a vector whose capacity is
+        // exactly len + hint: the item number `hint` needs the per-item reserve
+        let h = cap.saturating_sub(f);
+        a.push(Op::ExtIter(h, h + 1));
+        if h != 0 {
+            a.push(Op::ExtIter(0, 2));
+        }
     } else {
         a.extend([
             Op::TryPush,
@@ -1123,10 +1205,48 @@ fn parse_hist(lines: &[String]) -> Option<(Cfg, Hist)> {
     Some((cfg, h))
 }
 
+/// `VERIF_TRACE=<path>`: crash localisation — the history about to run is written to `<path>`
+static TRACE: std::sync::OnceLock<Option<String>> = std::sync::OnceLock::new();
+
+fn trace_path() -> Option<&'static str> {
+    TRACE.get_or_init(|| std::env::var("VERIF_TRACE").ok().filter(|p| !p.is_empty())).as_deref()
+}
+
+/// One history, with the harness' own bookkeeping guarded: a panic anywhere while the history
+/// runs (registry checks included) becomes a "monitor" disagreement carrying the history.
+fn run_guarded(cfg: Cfg, drv: &mut Driver, hist: &Hist) -> Result<CaseOut, String> {
+    if let Some(path) = trace_path() {
+        let mut line = hist_lines(cfg, hist).join(" ; ");
+        line.push('\n');
+        let _ = std::fs::write(path, line);
+    }
+    match catch_unwind(AssertUnwindSafe(|| run_cfg(cfg, drv, hist))) {
+        Ok(r) => r,
+        Err(payload) => {
+            let msg = payload
+                .downcast_ref::<String>()
+                .cloned()
+                .or_else(|| payload.downcast_ref::<&str>().map(|s| s.to_string()))
+                .unwrap_or_else(|| "non-string panic payload".into());
+            mon(|m| m.armed = false);
+            Ok(CaseOut {
+                calls: vec![],
+                panicked: false,
+                bad: Some((
+                    "monitor",
+                    0,
+                    "the history runs to completion".into(),
+                    format!("panic outside the guarded operation while running this history: {msg}"),
+                )),
+            })
+        }
+    }
+}
+
 /// delete operations / lower arguments while the same kind of disagreement persists
 fn shrink(cfg: Cfg, drv: &mut Driver, hist: &Hist, kind: &str) -> Hist {
     let fails = |drv: &mut Driver, h: &Hist| -> bool {
-        matches!(run_cfg(cfg, drv, h), Ok(CaseOut { bad: Some((k, ..)), .. }) if k == kind)
+        matches!(run_guarded(cfg, drv, h), Ok(CaseOut { bad: Some((k, ..)), .. }) if k == kind)
     };
     let mut cur = hist.clone();
     let mut progress = true;
@@ -1145,6 +1265,14 @@ fn shrink(cfg: Cfg, drv: &mut Driver, hist: &Hist, kind: &str) -> Hist {
         }
         for i in 0..cur.len() {
             if let Some(k) = cur[i].0 {
+                // first without the fault at all, then with an earlier one
+                let mut cand = cur.clone();
+                cand[i].0 = None;
+                if fails(drv, &cand) {
+                    cur = cand;
+                    progress = true;
+                    continue;
+                }
                 for k2 in 0..k {
                     let mut cand = cur.clone();
                     cand[i].0 = Some(k2);
@@ -1169,7 +1297,7 @@ struct Worker {
 impl Worker {
     /// runs one history; returns the callback counts of its operations
     fn eval(&mut self, cfg: Cfg, hist: &Hist) -> Result<Vec<u64>, String> {
-        let out = run_cfg(cfg, &mut self.drv, hist)?;
+        let out = run_guarded(cfg, &mut self.drv, hist)?;
         self.stats.evaluations += 1;
         *self.stats.per_cfg.entry(cfg.name()).or_default() += 1;
         if out.calls.iter().any(|c| *c > 0) {
@@ -1192,7 +1320,7 @@ impl Worker {
         if let Some((kind, _, _, _)) = &out.bad {
             if self.stats.disagreements.len() < 20 {
                 let small = shrink(cfg, &mut self.drv, hist, kind);
-                let again = run_cfg(cfg, &mut self.drv, &small)?;
+                let again = run_guarded(cfg, &mut self.drv, &small)?;
                 let (kind, at, exp, obs) = again.bad.unwrap_or(out.bad.clone().unwrap());
                 self.stats.disagreements.push(serde_json::json!({
                     "kind": kind,
@@ -1215,7 +1343,8 @@ impl Worker {
         with_drop.push((None, Op::Drop));
         let calls = self.eval(cfg, &with_drop)?;
         for i in setup.len()..base.len() {
-            for k in 0..calls[i] {
+            // a disagreement in the base run cuts it short: no callback counts beyond that point
+            for k in 0..calls.get(i).copied().unwrap_or(0) {
                 let mut h: Hist = base[..=i].to_vec();
                 h[i].0 = Some(k);
                 // the rest of the body still runs after the fault, then the fixed tail
@@ -1340,7 +1469,7 @@ fn random_cases(w: &mut Worker, cfg: Cfg, rng: &mut Rng, count: usize, maxlen: u
         let calls = w.eval(cfg, &base)?;
         // sampled faults
         let cands: Vec<(usize, u64)> = (0..body.len())
-            .flat_map(|i| (0..calls[i]).map(move |k| (i, k)))
+            .flat_map(|i| (0..calls.get(i).copied().unwrap_or(0)).map(move |k| (i, k)))
             .collect();
         if cands.is_empty() {
             continue;
@@ -1497,34 +1626,37 @@ fn main() {
             Cfg::T(64, true),
         ];
         let seed = cli.seed;
-        let results: Vec<Result<Stats, String>> = std::thread::scope(|sc| {
-            let handles: Vec<_> = (0..workers)
-                .map(|me| {
-                    let lean = lean.clone();
-                    let jobs = jobs.clone();
-                    sc.spawn(move || -> Result<Stats, String> {
-                        let mut w = Worker {
-                            drv: Driver::spawn(&lean).map_err(|e| e.to_string())?,
-                            stats: Stats::default(),
-                            profile,
-                        };
-                        for (cfg, fill, depth) in &jobs {
-                            exhaustive(&mut w, *cfg, *fill, *depth, me, workers)?;
-                        }
-                        let mut rng = Rng::new(seed.wrapping_mul(1000).wrapping_add(me as u64));
-                        for (n, cfg) in all_cfgs.iter().enumerate() {
-                            if cfg.is_thin() && n % workers == me {
-                                boundaries(&mut w, *cfg)?;
-                            }
-                            let count = if thorough { 3000 } else { 300 };
-                            random_cases(&mut w, *cfg, &mut rng, count, if thorough { 24 } else { 14 })?;
-                        }
-                        Ok(w.stats)
-                    })
-                })
-                .collect();
-            handles.into_iter().map(|h| h.join().unwrap_or_else(|_| Err("worker panicked".into()))).collect()
-        });
+        let job = |me: usize| -> Result<Stats, String> {
+            let mut w = Worker {
+                drv: Driver::spawn(&lean).map_err(|e| e.to_string())?,
+                stats: Stats::default(),
+                profile,
+            };
+            for (cfg, fill, depth) in &jobs {
+                exhaustive(&mut w, *cfg, *fill, *depth, me, workers)?;
+            }
+            let mut rng = Rng::new(seed.wrapping_mul(1000).wrapping_add(me as u64));
+            for (n, cfg) in all_cfgs.iter().enumerate() {
+                if cfg.is_thin() && n % workers == me {
+                    boundaries(&mut w, *cfg)?;
+                }
+                let count = if thorough { 3000 } else { 300 };
+                random_cases(&mut w, *cfg, &mut rng, count, if thorough { 24 } else { 14 })?;
+            }
+            Ok(w.stats)
+        };
+        let results: Vec<Result<Stats, String>> = if trace_path().is_some() {
+            // crash localisation: the same cases, worker after worker, on this thread
+            (0..workers).map(|me| job(me)).collect()
+        } else {
+            std::thread::scope(|sc| {
+                let handles: Vec<_> = (0..workers).map(|me| sc.spawn(move || job(me))).collect();
+                handles
+                    .into_iter()
+                    .map(|h| h.join().unwrap_or_else(|_| Err("worker panicked".into())))
+                    .collect()
+            })
+        };
         for r in results {
             match r {
                 Ok(s) => total.merge(s),
